@@ -17,6 +17,8 @@ pub enum Pat {
     EnumA,
     EnumB(Box<Pat>),
     EnumC(Box<Pat>, Box<Pat>),
+    /// `E::C(p)`: too few sub-patterns for the variant C(bool, bool) - ill-typed, matches nothing
+    EnumCShort(Box<Pat>),
     /// struct S { a: u8, b: bool, c: i8 }: the listed (field index, pattern) pairs in the written order, `..` if the flag is set
     Struct(Vec<(usize, Pat)>, bool),
 }
@@ -57,7 +59,8 @@ fn matches(p: &Pat, v: &Val) -> bool {
         (Pat::Excl(a, b), Val::Int(x)) => a <= x && x < b,
         (Pat::True, Val::Bool(b)) => *b,
         (Pat::False, Val::Bool(b)) => !*b,
-        (Pat::Tuple(ps), Val::Tuple(vs)) => ps.iter().zip(vs).all(|(p, v)| matches(p, v)),
+        // (a tuple pattern with the wrong number of components is ill-typed and matches nothing)
+        (Pat::Tuple(ps), Val::Tuple(vs)) => ps.len() == vs.len() && ps.iter().zip(vs).all(|(p, v)| matches(p, v)),
         (Pat::EnumA, Val::A) => true,
         (Pat::EnumB(p), Val::B(x)) => matches(p, &Val::Int(*x)),
         (Pat::EnumC(p, q), Val::C(a, b)) => matches(p, &Val::Bool(*a)) && matches(q, &Val::Bool(*b)),
@@ -82,6 +85,7 @@ fn show(p: &Pat, k: &mut usize) -> String {
         Pat::EnumA => "E::A".into(),
         Pat::EnumB(p) => format!("E::B({})", show(p, k)),
         Pat::EnumC(p, q) => format!("E::C({}, {})", show(p, k), show(q, k)),
+        Pat::EnumCShort(p) => format!("E::C({})", show(p, k)),
         Pat::Struct(fs, rest) => {
             let mut parts: Vec<String> = fs.iter().map(|(i, p)| format!("{}: {}", S_FIELDS[*i], show(p, k))).collect();
             if *rest { parts.push("..".into()); }
@@ -141,7 +145,7 @@ fn domain(t: &Ty, arms: &[Pat]) -> Vec<Val> {
         Ty::Tuple(ts) => {
             let mut res = vec![vec![]];
             for (i, t) in ts.iter().enumerate() {
-                let sub: Vec<Pat> = arms.iter().filter_map(|p| if let Pat::Tuple(ps) = p { Some(ps[i].clone()) } else { None }).collect();
+                let sub: Vec<Pat> = arms.iter().filter_map(|p| if let Pat::Tuple(ps) = p { ps.get(i).cloned() } else { None }).collect();
                 let d = domain(t, &sub);
                 let mut next = vec![];
                 for r in &res {
@@ -410,7 +414,11 @@ fn rand_pat(rng: &mut Rng, t: &Ty) -> Pat {
             _ => Pat::Bind,
         },
         Ty::Tuple(ts) => {
-            if rng.below(6) == 0 { Pat::Wild } else { Pat::Tuple(ts.iter().map(|t| rand_pat(rng, t)).collect()) }
+            if rng.below(6) == 0 { Pat::Wild } else {
+                let mut ps: Vec<Pat> = ts.iter().map(|t| rand_pat(rng, t)).collect();
+                if rng.below(14) == 0 { ps.pop(); } // too few components: ill-typed
+                Pat::Tuple(ps)
+            }
         }
         Ty::Struct => {
             if rng.below(7) == 0 { return Pat::Wild; }
@@ -430,7 +438,9 @@ fn rand_pat(rng: &mut Rng, t: &Ty) -> Pat {
             0 => Pat::Wild,
             1 => Pat::EnumA,
             2 | 3 => Pat::EnumB(Box::new(rand_int_pat(rng, 0, 255))),
-            _ => Pat::EnumC(Box::new(rand_pat(rng, &Ty::Bool)), Box::new(rand_pat(rng, &Ty::Bool))),
+            _ => {
+                if rng.below(8) == 0 { Pat::EnumCShort(Box::new(rand_pat(rng, &Ty::Bool))) } else { Pat::EnumC(Box::new(rand_pat(rng, &Ty::Bool)), Box::new(rand_pat(rng, &Ty::Bool))) }
+            }
         },
     }
 }
